@@ -26,6 +26,24 @@ func TestSelfCheck(t *testing.T) {
 			t.Fatalf("library accepted G2 + torsion point of order %d", SmallPrimes[i])
 		}
 	}
+	// E1: a library signature decompresses, has order r, and signature + torsion is rejected by Verify
+	h := crypto.NewExpandMsgXOFKMAC128("curve-selfcheck")
+	sig, err := sk.Sign([]byte("msg"), h)
+	if err != nil {
+		t.Fatal(err)
+	}
+	if err := SelfCheckE1(sig); err != nil {
+		t.Fatal(err)
+	}
+	for i := range SmallPrimesE1 {
+		b, err := G1PlusTorsion(sig, i, 1)
+		if err != nil {
+			t.Fatal(err)
+		}
+		if ok, _ := sk.PublicKey().Verify(b, []byte("msg"), h); ok {
+			t.Fatalf("library accepted signature + torsion point of order %d", SmallPrimesE1[i])
+		}
+	}
 	r := &fixedRand{s: 7}
 	for i := 0; i < 20; i++ {
 		if _, err := crypto.DecodePublicKey(crypto.BLSBLS12381, G2NonSubgroup(r)); err == nil {
